@@ -130,7 +130,8 @@ def theorems(prop):
         "pton_F23", "pton_uninit_witness", "pton_F26_cidr_rejected", "pton_F26_bits_unwritten", "pton_trailing_colon",
         "ptonFixed_F26_cidr", "ptonFixed_F26_plain", "ptonFixed_still_rejects",
     )] + ["Iauthd.Properties.C13_mask", "Iauthd.Properties.C13_mask_judge_on_model", "Iauthd.Properties.C13_safe",
-          "Iauthd.Properties.C13_agree_partial", "Iauthd.Properties.C13_netmask_partial"]
+          "Iauthd.Properties.C13_agree_partial", "Iauthd.Properties.C13_netmask_partial",
+          "Iauthd.Properties.C13_plain_is_128", "Iauthd.Addr.ntop_pton_wb"]
 
 
 def lean_imports(prop):
